@@ -212,6 +212,17 @@ impl Property for C08 {
                     compare_priv(&built, &rcur, "xprv_new")?;
                     let builtp = lib_call("ExtendedPublicKey::new", || ExtendedPublicKey::new(&lcur.get_public_key(), &lcur.get_chain_code(), &lcur.get_depth(), &lcur.get_index(), Some(&lcur.get_parent_fingerprint())))?;
                     compare_pub(&builtp, &rcur, "xpub_new")?;
+                    // keys rebuilt from their parts derive like the originals
+                    if rcur.depth < 255 {
+                        for ci in [1u32, 0x8000_0002] {
+                            if let (Ok(lc), Some(rc)) = (lib_call("derive(from new)", || built.derive(ci))?, bip32::derive(&rcur, ci)) {
+                                compare_priv(&lc, &rc, "child_of_xprv_new")?;
+                            }
+                        }
+                        if let (Ok(lc), Some(rc)) = (lib_call("xpub derive(from new)", || builtp.derive(3))?, bip32::derive(&rcur, 3)) {
+                            compare_pub(&lc, &rc, "child_of_xpub_new")?;
+                        }
+                    }
                 }
                 // whole path as text
                 let text = render(path, *style);
